@@ -300,7 +300,32 @@ def run(res: Result, tier: str, seed: int):
                 "independent tree oracle; non-trivial = distinct lines not rejected by the real code")
     fails: list = []
     d = run_cases(res, rng, 250 if tier == "quick" else 5000, tier != "quick", fails)
+    fails += racing_encoders(res)
     return fails, d.compare()
+
+
+def racing_encoders(res: Result) -> list:
+    """the writer threads of two connections inside `Message.as_bytes()` at the same time (harness/encrace.py, fresh
+    interpreter): under every sampled single-preemption schedule each message is encoded as when it is encoded alone"""
+    import json
+    import os
+    import subprocess
+    import sys
+    from common import REPO_SRC
+    here = os.path.dirname(os.path.abspath(__file__))
+    env = dict(os.environ, TZ="UTC", DV_REPO_SRC=REPO_SRC)
+    try:
+        p = subprocess.run([sys.executable, os.path.join(here, "encrace.py")], env=env, capture_output=True, text=True, timeout=600)
+        doc = json.loads(p.stdout.strip().splitlines()[-1])
+    except Exception as e:  # noqa
+        return [{"what": "Message.as_bytes could not be run by two threads under a line-level schedule "
+                         f"({type(e).__name__}: {str(e)[:200]})", "kind": "race", "line": "encrace.py"}]
+    res.count("racing encoders (single-preemption schedules, real threads)", doc["schedules"])
+    res.cases += doc["schedules"]
+    res.extra["racing_encoder_schedules"] = doc["schedules"]
+    res.rule += ("; two threads inside Message.as_bytes for different messages under every sampled single-preemption schedule: "
+                 "each is encoded as when encoded alone")
+    return doc["fails"]
 
 
 def signature(f: dict):
